@@ -340,7 +340,7 @@ type Result struct {
 	Resp    codec.ProtoMarshaler
 	Events  []abci.Event
 	GasUsed uint64
-	Msg     sdk.Msg // the message as decoded (what the handler saw)
+	Msg     sdk.Msg // the message as decoded (a pristine copy of what the handler was given)
 }
 
 // RoundTrip encodes and decodes a message through Any, the way a tx decoder
@@ -377,7 +377,13 @@ func (c *Chain) Deliver(ctx sdk.Context, msg sdk.Msg) (post sdk.Context, write f
 		res = Result{Err: err.Error(), Stage: "decode", Msg: msg}
 		return
 	}
-	res.Msg = m2
+	// the monitors judge against the REQUEST: a second, pristine decode, because a handler may modify
+	// the message object it is given (normalising a field in place, for instance)
+	if m3, err := c.RoundTrip(msg); err == nil {
+		res.Msg = m3
+	} else {
+		res.Msg = m2
+	}
 	// baseapp.runTx calls ValidateBasic under its recover(): a panic is a failed tx
 	var verr error
 	func() {
